@@ -45,7 +45,7 @@ from sqlalchemy import (
     update,
 )
 from sqlalchemy.dialects.postgresql import JSONB
-from sqlalchemy.exc import OperationalError
+from sqlalchemy.exc import IntegrityError, OperationalError
 from sqlalchemy.orm import (
     Session,
     backref,
@@ -1442,7 +1442,8 @@ class RedunSession(Session):
 
 def db_retry(func: Callable) -> Callable:
     """
-    Decorator to automatically retry database operations on OperationalError.
+    Decorator to automatically retry database operations on OperationalError (and once
+    on IntegrityError, which a concurrent writer of the same record causes).
 
     This decorator is designed for RedunBackendDb methods that perform database
     queries/writes and may encounter connection disconnects.
@@ -1474,9 +1475,19 @@ def db_retry(func: Callable) -> Callable:
 
     def retry_loop(self: "RedunBackendDb", *args, **kwargs):
         self._db_retries_attempt = 0
+        integrity_retried = False
         while True:
             try:
                 return func(self, *args, **kwargs)
+            except IntegrityError:
+                # Another writer on the same database may have inserted the same
+                # content-addressed record between our existence check and our insert.
+                # Retry once: the existence check then finds the record.
+                assert self.session
+                self.session.rollback()
+                if integrity_retried:
+                    raise
+                integrity_retried = True
             except OperationalError as error:
                 # Restore the database connection to a working state.
                 assert self.session
